@@ -19,7 +19,7 @@ from mc.numerics import rows_1dev
 PROPERTY = "C19"
 RULE = (
     "subject x config (<=1 deviation; thorough <=2) x pattern x 1-deviation rows of the C01/C02 cell alphabets rounded to float32, "
-    "forward direction on the input alphabet and inverse direction on the float32-rounded twin images; flows: log_prob rows. "
+    "forward direction on the input alphabet and inverse direction on the float32-rounded twin images; flows: log_prob rows; plus wide (32-96 feature) linear/normalisation/autoregressive layers. "
     "Non-trivial = the float64 twin result differs from the float32 result (rounding visible) or the row has a non-interior cell."
 )
 ASSUMPTIONS = [
@@ -113,6 +113,13 @@ def run_case(sname, cfg, pname, seed, tier, res=None, only=None):
     s = C.SUBJECTS[sname]
     try:
         m32 = C.materialise(s, cfg, pname, seed, dtype=torch.float32)
+        if cfg.get("_wide"):
+            # wide layer with uniformly small / large per-dimension scales (each of moderate size: 0.05 resp. 3.5)
+            v = {"small": -3.0, "large": 3.5}[cfg["_wide"]]
+            with torch.no_grad():
+                for n_, p_ in m32.named_parameters():
+                    if any(t in n_ for t in ("unconstrained_upper_diag", "unconstrained_diagonal", "log_upper_diag", "log_scale", "unconstrained_weight")):
+                        p_.fill_(v if "log_" not in n_ else (v if v < 0 else 1.25))
         m64 = copy.deepcopy(m32).double()
     except Exception as e:
         if res is not None:
@@ -238,6 +245,14 @@ def units(tier, seed):
     k = 1 if tier == "quick" else 2
     us = [("t", name, cfg, tier, seed) for name, s in C.SUBJECTS.items() for cfg in C.enum_configs(s, k)]
     us += [("d", name, cfg, tier, seed) for name, d in DC.DSUBJECTS.items() if d.torch_tensor_api for cfg in DC.enum_configs(d, k)]
+    # wide layers: products/sums over ~100 factors are where float32 range and accumulation errors show up
+    for name, over in (("LULinear", {"features": 96}), ("QRLinear", {"features": 96}), ("SVDLinear", {"features": 96}), ("OneByOneConvolution", {"channels": 48}),
+                       ("ActNorm", {"features": 96}), ("BatchNorm", {"features": 96}), ("MaskedAffineAutoregressiveTransform", {"features": 32, "hidden": 16})):
+        for wide in ("small", "large"):
+            cfg = dict(C.SUBJECTS[name].default())
+            cfg.update(over)
+            cfg["_wide"] = wide
+            us.append(("t", name, cfg, tier, seed))
     return us
 
 
@@ -245,7 +260,8 @@ def run_unit(unit):
     kind, name, cfg, tier, seed = unit
     res = new_result()
     if kind == "t":
-        for pname in C.SUBJECTS[name].patterns:
+        pats = C.SUBJECTS[name].patterns if not cfg.get("_wide") else ("init", "patS")
+        for pname in pats:
             res["violations"].extend(run_case(name, cfg, pname, seed, tier, res))
     else:
         for pname in DC.DSUBJECTS[name].patterns:
